@@ -273,6 +273,8 @@ def random_schema(rng, depth=3, name_counter=None):
         for _ in range(rng.randrange(1, 5)):
             b = gen(d - 1, in_union=True)
             kind = b["k"] if b["k"] not in ("record", "enum", "fixed") else b["name"]
+            if b.get("lt") == "duration":
+                kind = "duration"       # two duration branches both go by the type name "Duration": a typed target cannot tell them apart
             if kind in seen:
                 continue
             seen.add(kind)
